@@ -356,6 +356,59 @@ fn gen_graze_case(r: &mut Rng, lat: bool, terrain: bool) -> Vec<(String, String)
     vec![("e2e".to_string(), args)]
 }
 
+/// one BVH box against a posed ball / cuboid for the broad-phase test `cull`: the boxes are placed a chosen signed gap apart
+/// along one axis at a "pass" point (overlapping, touching, inside / exactly at / just beyond the target distance, far),
+/// aligned or corner-to-corner on the other axes; velocities tangential (exactly zero along the gap axis), approaching with
+/// the interval ending at the pass point, starting at the pass point, zero, axis-aligned with signed zeros, random;
+/// `max_time_of_impact` at / around the pass time or unbounded.
+fn gen_cull_case(r: &mut Rng, lat: bool) -> (String, String) {
+    let c = dx::gen_p(r, lat, 10.0);
+    let mut h = if lat { gen_he(r, true) } else { V::from_fn(|_, _| r.logu(1e-2, 20.0)) };
+    if r.below(6) == 0 { h[r.below(DIM as u64) as usize] = 0.0; }                 // flat box (axis-aligned segment / face)
+    let (mins, maxs) = (c - h, c + h);
+    let sb = if r.bool() { hshape_ball(if lat { r.pos_extent(true) } else { r.logu(1e-2, 20.0) }) }
+             else { let he = if lat { gen_he(r, true) } else { V::from_fn(|_, _| r.logu(1e-2, 20.0)) }; hshape_cuboid(&he) };
+    let g2 = mk(&sb);
+    let mut q = dx::gen_iso(r, lat, 1.0); q.translation.vector = V::zeros();
+    let hb = g2.compute_aabb(&q).half_extents();
+    let target = if r.below(4) == 0 { 0.0 } else if lat { *r.pick(&[0.125, 0.25, 0.5, 1.0, 2.0]) } else { r.logu(1e-3, 10.0) };
+    let k = r.below(DIM as u64) as usize;
+    let side = if r.bool() { 1.0 } else { -1.0 };
+    let ek = axis(k, side);
+    let big = if lat { 4.0 } else { r.uniform(1.0, 30.0) };
+    let gap = match r.below(9) {
+        0 => -(h[k] + hb[k]) * 0.5, 1 => 0.0, 2 | 3 => target * 0.5, 4 => target, 5 => target * 1.25 + if target == 0.0 { 0.25 } else { 0.0 },
+        6 => target * (1.0 - 1.0 / 1048576.0), 7 => target * (1.0 + 1.0 / 1048576.0) + if target == 0.0 { 1.0e-9 } else { 0.0 }, _ => target + big };
+    // centre of box 2 at the pass point
+    let mut tp = c.coords;
+    for j in 0..DIM {
+        let reach = h[j] + hb[j];
+        tp[j] += if j == k { side * (reach + gap) } else { match r.below(4) {
+            0 => 0.0, 1 => reach * if r.bool() { 1.0 } else { -1.0 },                     // aligned / boxes exactly touching on that axis
+            2 => (reach + target) * if r.bool() { 1.0 } else { -1.0 },                  // exactly at the target on that axis too (corner tie)
+            _ => reach * if lat { *r.pick(&[-0.5, 0.25, 0.75]) } else { r.uniform(-0.95, 0.95) } } };
+    }
+    let sgn = |r: &mut Rng| if r.bool() { 1.0 } else { -1.0 };
+    let mut dperp = V::zeros();
+    for j in 0..DIM { if j != k { dperp[j] = match r.below(4) { 0 => 0.0, 1 => -0.0, 2 => sgn(r), _ => if lat { r.lattice(8, 2) } else { r.uniform(-1.0, 1.0) } }; } }
+    if dperp.norm() == 0.0 && r.below(3) != 0 { dperp[(k + 1) % DIM] = sgn(r); }
+    let speed = if lat { *r.pick(&[0.25, 1.0, 4.0]) } else { r.logu(1e-2, 1e2) };
+    let lead = if lat { *r.pick(&[2.0, 8.0, 32.0]) } else { r.uniform(0.5, 60.0) };
+    let (d, t0, max_toi): (V, V, f64) = match r.below(12) {
+        0..=3 => { let d = dperp * speed; let n = d.norm(); if n == 0.0 { (d, tp, lead) } else { let tpass = lead / n;
+                   (d, tp - d * tpass, *r.pick(&[tpass, tpass * 2.0, tpass * 0.5, f64::MAX, tpass * 64.0])) } }
+        4..=6 => { let d = (dperp * *r.pick(&[0.0, 0.5, 1.0]) - ek * if lat { *r.pick(&[0.5, 1.0]) } else { r.uniform(0.1, 2.0) }) * speed;
+                   let tpass = lead / d.norm();
+                   (d, tp - d * tpass, *r.pick(&[tpass, tpass * (1.0 + 1.0 / 64.0), tpass * 0.75, tpass * 4.0, f64::MAX])) }
+        7 | 8 => { let d = (dperp + ek * *r.pick(&[0.0, -0.0, 0.25, 1.0])) * speed; (d, tp, if r.below(4) == 0 { f64::MAX } else { lead }) }
+        9 => (V::zeros(), tp, lead),
+        10 => { let d = axis(r.below(DIM as u64) as usize, sgn(r) * speed); (d, tp - d * lead, *r.pick(&[lead, lead * 2.0, lead * 0.5, f64::MAX])) }
+        _ => { let d = dx::gen_v(r, lat, if lat { 1.0 } else { 20.0 }); (d, tp - d * lead, *r.pick(&[lead, lead * 2.0, f64::MAX])) }
+    };
+    q.translation.vector = t0;
+    ("cull".into(), format!("{} {} {} {} {} {} {}", dx::hiso(&q), dx::hv(&d), sb, hx(max_toi), hx(target), dx::hp(&P::from(mins)), dx::hp(&P::from(maxs))))
+}
+
 pub fn gen(r: &mut Rng, thorough: bool) -> Vec<(String, String)> {
     let n = if thorough { 4000 } else { 400 };
     let mut v: Vec<(String, String)> = Vec::new();
@@ -507,5 +560,7 @@ pub fn gen(r: &mut Rng, thorough: bool) -> Vec<(String, String)> {
         if it % 2 == 1 || (it / 2) % 2 == 0 { v.extend(gen_graze_case(r, lat, true)); }
         if it % 3 == 0 { v.extend(gen_graze_case(r, !lat, false)); }
     }
+    // ---- the broad-phase box test of the composite cast, on explicit boxes (bit-exact model + exact oracle)
+    for it in 0..(if thorough { 12000 } else { 1200 }) { v.push(gen_cull_case(r, it % 2 == 0)); }
     v
 }
